@@ -38,14 +38,22 @@ func c08Sig(s string) os.Signal {
 		return syscall.SIGHUP
 	case "INT":
 		return os.Interrupt
+	case "QUIT":
+		return syscall.SIGQUIT
+	case "USR1":
+		return syscall.SIGUSR1
 	}
 	return syscall.SIGTERM
 }
 
 func c08Cases() []c08Case {
 	var cs []c08Case
-	for _, sig := range []string{"TERM", "HUP", "INT"} {
-		for _, sc := range []string{"serve-e2e", "after-reinit", "final-ra-fails", "idle", "pending-delay", "rs-at-stop", "periodic-due", "armed-write-2", "armed-write-2-fails", "armed-write-2-enobufs", "armed-write-3-unicast", "armed-fwd-3", "armed-write-1", "armed-reinit-initial", "link-change-at-stop"} {
+	for _, sig := range []string{"TERM", "HUP", "INT", "QUIT", "USR1"} {
+		for _, sc := range []string{"serve-e2e", "after-reinit", "final-ra-fails", "idle", "pending-delay", "rs-at-stop", "periodic-due", "armed-write-2", "armed-write-2-fails", "armed-write-2-enobufs", "armed-write-3-unicast", "armed-fwd-3", "armed-write-1", "armed-reinit-initial", "link-change-at-stop", "fwd-off-then-stop"} {
+			// every signal but SIGHUP terminates; the less common ones on two scripts
+			if (sig == "QUIT" || sig == "USR1") && sc != "idle" && sc != "serve-e2e" {
+				continue
+			}
 			if sig == "INT" && sc != "armed-write-3-unicast" && sc != "idle" && sc != "serve-e2e" && sc != "after-reinit" && sc != "final-ra-fails" {
 				continue
 			}
@@ -214,6 +222,14 @@ func c08Scenario(c c08Case) *vsched.Scenario {
 					vsched.Sleep(2 * time.Second)
 					vsched.Mark()
 					vsched.Recv("harness:armed", arm)
+					stop()
+				case "fwd-off-then-stop":
+					// RAs with the configured lifetime went out while the interface was
+					// forwarding; forwarding is switched off and the stop follows at once (no RA
+					// in between): hosts still hold a default route, the final RA withdraws it.
+					vsched.Sleep(3500 * time.Millisecond)
+					vsched.Mark()
+					a.st.setFwd("eth0", false)
 					stop()
 				case "link-change-at-stop":
 					// The link state changes (and the watcher then halts, as it does when the
